@@ -126,7 +126,6 @@ typedef unsigned long uint64_t;
  */
 
 typedef int (*cmpfun)(const void *, const void *, void *);
-static unsigned char tmp[256];
 #ifdef HAVE___BUILTIN_CTZ
 #define ntz(x) __builtin_ctz((x))
 #else
@@ -168,17 +167,17 @@ static inline int pntz(size_t p[2]) {
 }
 
 static void cycle(size_t width, unsigned char *ar[], int n) {
+    unsigned char tmp[256]; /* per call: qsort_s must be reentrant */
     size_t l;
     int i;
 
     if (n < 2)
         return;
-    ar[n] = tmp;
     while (width) {
         l = sizeof(tmp) < width ? sizeof(tmp) : width;
-        memcpy(ar[n], ar[0], l);
+        memcpy(tmp, ar[0], l);
         for (i = 0; i < n; i++) {
-            memcpy(ar[i], ar[i + 1], l);
+            memcpy(ar[i], i + 1 < n ? ar[i + 1] : tmp, l);
             ar[i] += l;
         }
         width -= l;
